@@ -101,13 +101,21 @@ pub fn eval_inproc(ctx: &Ctx, c: &InprocCase) -> Verdict {
 pub struct NetCase { pub workers: u8, pub shape: u8, pub requests: Vec<u16>,
     /// a docroot and a server nobody has used yet, the concurrent phase first and the one-at-a-time reference afterwards: whatever the server
     /// sets up on first use (lazily created files, caches) is then set up under concurrency
-    #[serde(default)] pub fresh: bool }
+    #[serde(default)] pub fresh: bool,
+    /// (with fresh) the server runs with a layered configuration: CORS settings in rws.config.toml that the command line overrides with other values -
+    /// whatever re-reads or re-applies configuration while requests are in flight shows as a response that differs from the one-at-a-time reference
+    #[serde(default)] pub layered: bool }
 
 pub fn eval_net(ctx: &Ctx, docroot: &std::path::Path, c: &NetCase) -> Verdict {
     let n = c.workers.max(1) as u32;
     let fresh_tree = if c.fresh { match crate::fw::tree::Tree::materialise(&crate::fw::greq::fixed_tree(), &crate::fw::scratch_base()) { Ok(t) => Some(t), Err(e) => { ctx.inconclusive(&format!("fresh docroot: {}", e)); return Verdict::Discard; } } } else { None };
     let docroot = fresh_tree.as_ref().map(|t| t.root.as_path()).unwrap_or(docroot);
-    let srv = match Server::start(&ServerOpts::new(docroot, n)) { Ok(s) => s, Err(e) => { ctx.inconclusive(&format!("server start: {}", e)); return Verdict::Discard; } };
+    let mut opts = ServerOpts::new(docroot, n);
+    if c.fresh && c.layered {
+        let _ = std::fs::write(docroot.join("rws.config.toml"), "[cors]\nallow_all = false\nallow_origins = ['https://file-only.example']\nallow_methods = ['POST']\nallow_headers = ['x-file']\nallow_credentials = false\nexpose_headers = ['x-file-exposed']\nmax_age = '11'\n");
+        opts.args = vec!["--cors-allow-all=true".into(), "--cors-max-age=33".into(), "--cors-allow-methods=GET,PUT".into(), "--cors-allow-credentials=true".into()];
+    }
+    let srv = match Server::start(&opts) { Ok(s) => s, Err(e) => { ctx.inconclusive(&format!("server start: {}", e)); return Verdict::Discard; } };
     let mut srv = srv;
     let limit = Duration::from_secs(10);
     let reqs: Vec<Vec<u8>> = c.requests.iter().map(|k| pool_request(*k)).collect();
@@ -174,6 +182,7 @@ pub fn eval_net(ctx: &Ctx, docroot: &std::path::Path, c: &NetCase) -> Verdict {
     classes.push(match n { 1 => "workers-1", 2 => "workers-2", 4 => "workers-4", 8 => "workers-8", _ => "workers-16" });
     if overlapping { classes.push("overlap-confirmed"); }
     if c.fresh { classes.push("fresh-docroot-and-server-concurrent-phase-first"); }
+    if c.fresh && c.layered { classes.push("layered-configuration-(file-overridden-by-command-line)"); }
     ctx.judge(problems, overlapping && distinct.len() >= 2, classes)
 }
 
@@ -184,7 +193,7 @@ pub fn run(ctx: &Ctx) {
     let reqs = prop_oneof![3 => proptest::collection::vec(any::<u16>(), 2..12), 2 => proptest::collection::vec(any::<u16>(), 12..=64)];
     ctx.prop("inproc", ctx.share(ctx.scale(2400, 60_000)), (reqs.clone(), proptest::bool::weighted(0.2)).prop_map(|(requests, fresh)| InprocCase { requests, fresh }), |c| eval_inproc(ctx, c));
     let root = tree.root.clone();
-    let nc = (prop::sample::select(vec![1u8, 2, 4, 8, 16]), 0u8..3, reqs, proptest::bool::weighted(0.3)).prop_map(|(workers, shape, requests, fresh)| NetCase { workers, shape, requests, fresh });
+    let nc = (prop::sample::select(vec![1u8, 2, 4, 8, 16]), 0u8..3, reqs, proptest::bool::weighted(0.3), any::<bool>()).prop_map(|(workers, shape, requests, fresh, layered)| NetCase { workers, shape, requests, fresh, layered });
     ctx.prop("network", ctx.share(ctx.scale(320, 12_000)), nc, |c| eval_net(ctx, &root, c));
     let _ = std::env::set_current_dir("/");
     drop(tree);
